@@ -265,3 +265,79 @@ def r_lenlower(ctx):
         res.inst(sample={"handle_type": adt, "has_drop": a and a["has_drop_impl"]})
         res.ok()
     return res
+
+
+def handle_roles(ctx):
+    """{handle adt: {role: [field key tuples]}} -- what each handle field records at creation (by value, not by name)"""
+    cache = getattr(ctx, "_handle_roles", None)
+    if cache is not None:
+        return cache
+    ctors, adts = handle_ctors(ctx)
+    out = {}
+    ONE = Poly.const(1)
+    for cpath, (adt, nidx) in sorted(ctors.items()):
+        arms = ctx.arms(cpath) or []
+        for tt, I in arms[:1]:
+            ls = len_stores(I)
+            rets = I.all_effects(("RETURN",))
+            if not ls or not rets:
+                continue
+            L0 = as_poly(entry_len(I, I.g.entry, ls[0]["path"]))
+            tree = rets[0]["value"]
+            roles = {}
+            if isinstance(tree, tuple) and tree and tree[0] == "tree":
+                for k, v in tree[1]:
+                    if isinstance(v, Poly):
+                        if v == L0 - ONE:
+                            roles.setdefault("last_index", []).append(k)
+                        elif v == L0:
+                            roles.setdefault("original_len", []).append(k)
+                        elif v == Poly.atom(("param", 2)):
+                            roles.setdefault("index", []).append(k)
+                        elif v == Poly.atom(("param", 3)):
+                            roles.setdefault("end", []).append(k)
+                    elif isinstance(v, tuple) and v and v[0] == "ptr":
+                        s = slot_of(v)
+                        if s and s[1] == Poly.atom(("param", 2)):
+                            roles.setdefault("element", []).append(k)
+                    elif isinstance(v, tuple) and v and v[0] == "alias" and v[1] == (("A", 1), ()):
+                        roles.setdefault("vecptr", []).append(k)
+            out[adt] = roles
+    ctx._handle_roles = out
+    return out
+
+
+def range_handle_invariants(ctx, adt, prefix=()):
+    """facts assumed at the entry of a range handle's Drop: start <= iter.index <= iter.end <= [end <=] original_len.
+    They are established at creation (R-BOUNDS: start<=end<=LEN; R-FORMULA ctor-fields) and preserved by the cursor
+    discipline of the inner iterator (R-ITER)."""
+    roles = handle_roles(ctx).get(adt, {})
+
+    def F(k):
+        return Poly.atom(("init", (("P", 1), tuple(prefix) + tuple(k)), 0))
+    start = [k for k in roles.get("index", []) if len(k) == 1]
+    it_index = [k for k in roles.get("index", []) if len(k) == 2]
+    it_end = [k for k in roles.get("end", []) if len(k) == 2]
+    endf = [k for k in roles.get("end", []) if len(k) == 1]
+    ol = roles.get("original_len", [])
+    facts = []
+    if start and it_index:
+        facts.append(cmp_fact("Le", F(start[0]), F(it_index[0])))
+    if it_index and it_end:
+        facts.append(cmp_fact("Le", F(it_index[0]), F(it_end[0])))
+    if it_end and endf:
+        facts.append(cmp_fact("Le", F(it_end[0]), F(endf[0])))
+        if ol:
+            facts.append(cmp_fact("Le", F(endf[0]), F(ol[0])))
+    if it_end and ol:
+        facts.append(cmp_fact("Le", F(it_end[0]), F(ol[0])))
+    if start and endf:
+        facts.append(cmp_fact("Le", F(start[0]), F(endf[0])))
+    # the visible length was lowered to start / index at creation (R-LENLOWER)
+    vp = roles.get("vecptr", [])
+    lowered = start or [k for k in roles.get("index", []) if len(k) == 1]
+    if vp and lowered:
+        ptr_atom = ("init", (("P", 1), tuple(prefix) + tuple(vp[0])), 0)
+        lp = (("V", ptr_atom), ("len",))
+        facts.append(cmp_fact("Eq", Poly.atom(("init", lp, 0)), F(lowered[0])))
+    return frozenset(facts), roles
